@@ -5,7 +5,12 @@
 # prints one line per scenario.  Scenarios that record a fixed finding must
 # fail on the pre-fix tree and pass on /repo; boundary cases pass on both.
 PRE=/tmp/h2t-prefix
-[ -d "$PRE" ] || git -C /repo worktree add -q "$PRE" b48ad50c88587e65942ea521bf8dbd6d1c0d8c16
+# (all hooks commits which do not depend on a fix are cherry-picked onto it, so
+# that the current simulator builds against it)
+if [ ! -d "$PRE" ]; then
+    git -C /repo worktree add -q --detach "$PRE" b48ad50c88587e65942ea521bf8dbd6d1c0d8c16
+    for c in 0451152 1ac9344 9a9dc9f; do git -C "$PRE" cherry-pick -q $c || exit 2; done
+fi
 sed -i 's/^version = "0.14.3"/version = "0.14.2"/' "$PRE/Cargo.toml"
 H2TSIM_SCRATCH=/tmp/h2tsim-prefix /verif/tools/sim_against.sh "$PRE" gen C01 1 0 quick >/dev/null || exit 2
 ( cd /verif/sim && cargo build --release --offline >/dev/null 2>&1 ) || exit 2
